@@ -136,10 +136,28 @@ def check(c):
     pt = c.func('workflow_db_mgr', 'WorkflowDatabaseManager.put_tasks_to_hold')
     d = [s for s in c.stores(pt, 'db_deletes_map')]
     i = [s for s in c.stores(pt, 'db_inserts_map')]
-    ok = (len(d) == 1 and norm(d[0].value) == '[{}]' and len(i) == 1
-          and isinstance(i[0].value, ast.ListComp)
-          and norm(i[0].value.generators[0].iter) ==
-          pt.node.args.args[1].arg)
+    # delete-all + one row per element of the given set, unfiltered: as a
+    # comprehension over the parameter, or as a list filled by a loop over it
+    param = pt.node.args.args[1].arg
+    ok = len(d) == 1 and norm(d[0].value) == '[{}]' and len(i) == 1
+    if ok:
+        v = i[0].value
+        if isinstance(v, ast.ListComp):
+            ok = (len(v.generators) == 1 and not v.generators[0].ifs
+                  and norm(v.generators[0].iter) == param)
+        elif isinstance(v, ast.Name):
+            loops = [n for n in c.idx.walk(pt.node) if isinstance(n, ast.For)
+                     and norm(n.iter) == param]
+            apps = [a for lp in loops for a in ast.walk(lp)
+                    if isinstance(a, ast.Call) and isinstance(
+                        a.func, ast.Attribute) and a.func.attr == 'append'
+                    and norm(a.func.value) == v.id]
+            ok = (len(loops) == 1 and len(apps) == 1
+                  and c.idx.parent[id(c.idx.stmt_of(apps[0]))] is loops[0]
+                  and not any(isinstance(x, (ast.Continue, ast.Break))
+                              for x in ast.walk(loops[0])))
+        else:
+            ok = False
     c.ob('C06.persist-holds', f'{pt.fq} :: replaces the table with the '
          'given set', ok, c.where(pt.node, pt), '')
 
